@@ -22,8 +22,8 @@ const prelude = `(declare-sort Str 0)
 (declare-fun birth (Ref) Int)
 (define-fun isalloc ((now Int) (r Ref)) Bool (< (birth r) now))
 (define-fun nilslice () Slice (mk_slice nil 0 0))
-(declare-fun idx (Slice Int) Int)
-(assert (forall ((s Slice) (i Int)) (! (= (idx s i) (+ (s_off s) i)) :pattern ((idx s i)))))
+(declare-fun addi (Int Int) Int)
+(assert (forall ((a Int) (b Int)) (! (= (addi a b) (+ a b)) :pattern ((addi a b)))))
 (declare-fun slen (Str) Int)
 (declare-fun sconcat (Str Str) Str)
 (declare-fun ssub (Str Int Int) Str)
